@@ -33,7 +33,9 @@ fn check(ctx: &Ctx, dev_name: &str, form: &isa::Form, vals: &[i64]) {
     let dev = &avra_lib::device::DEVICES[dev_name];
     let forbidden = devices::forbidding_flag(dev, &form.name);
     let text = form.text(vals);
-    let src = format!(".device {}\n{}\n", dev_name, text);
+    // every other line carries a label of its own (a label and the instruction behind it are one line)
+    let labelled = fw::hash_str(&format!("{}{}", dev_name, text)) % 2 == 0;
+    let src = format!(".device {}\n{}{}\n", dev_name, if labelled { "here:" } else { "" }, text);
     let out = fw::build_str(&src);
     ctx.eval(1);
     let expect = isa::words_to_bytes(&isa::encode(form, vals));
@@ -168,6 +170,9 @@ fn sequences(ctx: &Ctx, rounds: u64) {
             if rng.chance(1, 4) {
                 src.push_str(&inert_lines(&mut rng, lines.len(), dev.ram_size >= 64, dev.eeprom_size >= 64));
             }
+            if rng.chance(1, 3) {
+                src.push_str(&format!("at_{}:", lines.len()));
+            }
             src.push_str(&text);
             src.push('\n');
             expect.extend(isa::words_to_bytes(&isa::encode(&forms[fi], &t)));
@@ -207,6 +212,9 @@ fn sequences(ctx: &Ctx, rounds: u64) {
                 }
             }
             let t = tuple(f, &mut rng);
+            if rng.chance(1, 2) {
+                src.push_str(*rng.pick(&["the_one:", "the_one:\t", "a: ", "L1:  "]));
+            }
             src.push_str(&f.text(&t));
             src.push('\n');
             // and something allowed after it
